@@ -124,6 +124,55 @@ func init() {
 		})
 	}
 	reg(repoMod+"middleware/mysql.CountGroups", func(in *Interp, fr *frame, a []Value, _ *ssa.CallCommon) Value { return in.mkU64(0) })
+	// LevelDB-backed caches (db.LDBDatabase): an in-memory key/value model per receiver
+	ldb := "(*" + repoMod + "middleware/db.LDBDatabase)."
+	ldbMap := func(in *Interp, recv Value) map[string]Value {
+		if in.P.ldb == nil {
+			in.P.ldb = map[string]map[string]Value{}
+		}
+		k := "nil"
+		if p, ok := recv.(*Ptr); ok && !IsNilPtr(p) {
+			k = p.String()
+		}
+		m, ok := in.P.ldb[k]
+		if !ok {
+			m = map[string]Value{}
+			in.P.ldb[k] = m
+		}
+		return m
+	}
+	ldbKey := func(in *Interp, v Value) string {
+		bs, ok := in.bytesIfConcrete(v.(Slice))
+		if !ok {
+			panic(unsupported{"LDBDatabase model with a symbolic key"})
+		}
+		return string(bs)
+	}
+	reg(ldb+"Put", func(in *Interp, fr *frame, a []Value, _ *ssa.CallCommon) Value {
+		ldbMap(in, a[0])[ldbKey(in, a[1])] = in.mkByteSlice(in.sliceTerms(a[2].(Slice)))
+		return Iface{}
+	})
+	reg(ldb+"Get", func(in *Interp, fr *frame, a []Value, _ *ssa.CallCommon) Value {
+		if v, ok := ldbMap(in, a[0])[ldbKey(in, a[1])]; ok {
+			return Tuple{in.mkByteSlice(in.sliceTerms(v.(Slice))), Iface{}}
+		}
+		return Tuple{Slice{}, in.newError("leveldb: not found")}
+	})
+	reg(ldb+"Has", func(in *Interp, fr *frame, a []Value, _ *ssa.CallCommon) Value {
+		_, ok := ldbMap(in, a[0])[ldbKey(in, a[1])]
+		return Tuple{in.mkBool(ok), Iface{}}
+	})
+	reg(ldb+"Delete", func(in *Interp, fr *frame, a []Value, _ *ssa.CallCommon) Value {
+		delete(ldbMap(in, a[0]), ldbKey(in, a[1]))
+		return Iface{}
+	})
+	reg(ldb+"Close", zeroRes)
+	// github.com/pkg/errors: plain error values (no stack capture)
+	reg("github.com/pkg/errors.New", func(in *Interp, fr *frame, a []Value, _ *ssa.CallCommon) Value { return in.newError(a[0]) })
+	reg("github.com/pkg/errors.Errorf", func(in *Interp, fr *frame, a []Value, _ *ssa.CallCommon) Value {
+		return in.newError(in.sprintf(a[0], a[1].(Slice)))
+	})
+	reg("runtime.Callers", func(in *Interp, fr *frame, a []Value, _ *ssa.CallCommon) Value { return in.mkInt(0) })
 	lg := func(in *Interp, fr *frame, a []Value, _ *ssa.CallCommon) Value { return mkStubIface("logger") }
 	reg(repoMod+"middleware/log.GetLogger", lg)
 	reg(repoMod+"middleware/log.GetLoggerByIndex", lg)
